@@ -818,6 +818,10 @@ else:
                 # waiting for it forever
                 self.process.terminate()
             self.join()
+            if exc_type is None and self.process.exitcode != 0:
+                raise RuntimeError(
+                    f"writing catalog failed, see error above: {self.cache_directory}"
+                )
 
         def task(self) -> None:
             with CatalogWriter(
